@@ -76,8 +76,9 @@ func (h *Handler[C]) NewObservation(req *pool.Message, observeFunc func(req *poo
 		}
 	}(&err)
 	if _, loaded := h.observations.LoadOrStore(token.Hash(), o); loaded {
-		err = pkgErrors.ErrKeyAlreadyExists
-		return nil, err
+		// the token belongs to another, live observation: refuse, and leave that one registered
+		// (the deferred clean-up removes by token, so it must not run for this error)
+		return nil, pkgErrors.ErrKeyAlreadyExists
 	}
 
 	err = h.cc.WriteMessage(req)
